@@ -322,6 +322,8 @@ fn run_generic(schema_rs: &RS, cap: usize, history: &[GMsg], case: &Case, ctx: &
             ctx.agg.count("fault.short_accept");
         }
         let r = match r {
+            // a sink that panics is the caller's fault, not the writer's: it counts as a failed write
+            Err(_) if sink.faults_fired.contains(&WriteFaultKind::Panic) => Err(apache_avro::Error::new(apache_avro::error::Details::WriteBytes(std::io::Error::other("sim: the sink panicked")))),
             Err(panic) => return Some(Failure::new("panic", "C18 panic writer=generic".to_string(), format!("call #{idx} panicked: {panic}"))),
             Ok(r) => r,
         };
@@ -482,6 +484,7 @@ fn run_specific_inner<T: Corp + From<Value> + Into<Value>>(method: u8, history: 
             ctx.agg.count(&format!("fault.{f:?}"));
         }
         let r = match r {
+            Err(_) if sink.faults_fired.contains(&WriteFaultKind::Panic) => Err(apache_avro::Error::new(apache_avro::error::Details::WriteBytes(std::io::Error::other("sim: the sink panicked")))),
             Err(panic) => return Some(Failure::new("panic", format!("C18 panic writer=specific.{mname}"), format!("call #{idx} panicked: {panic}"))),
             Ok(r) => r,
         };
@@ -535,8 +538,12 @@ fn run_specific_inner<T: Corp + From<Value> + Into<Value>>(method: u8, history: 
 
 pub struct C18;
 
-fn gen_sink_plan(r: &mut Rng) -> SinkPlan {
-    match r.below(5) {
+/// `may_panic`: only for writers used through a shared reference (`&self`): those stay usable
+/// after an unwind by Rust's own rules, whereas a `&mut self` writer whose call was unwound is
+/// in an unspecified state the caller has vouched for (`AssertUnwindSafe`), not the library.
+fn gen_sink_plan(r: &mut Rng, may_panic: bool) -> SinkPlan {
+    match r.below(if may_panic { 6 } else { 5 }) {
+        5 => SinkPlan { accept: if r.chance(1, 2) { Accept::All } else { Accept::Const(3) }, fault: Some(WriteFault { kind: WriteFaultKind::Panic, at: r.below(3) }) },
         0 => SinkPlan { accept: Accept::All, fault: Some(WriteFault { kind: WriteFaultKind::Other, at: 0 }) },
         1 => SinkPlan { accept: Accept::Const(3), fault: Some(WriteFault { kind: WriteFaultKind::Other, at: r.below(4) }) },
         2 => SinkPlan { accept: Accept::Const(1), fault: Some(WriteFault { kind: WriteFaultKind::DiskFull, at: r.below(15) }) },
@@ -613,7 +620,7 @@ impl Property for C18 {
                 history.push(match wr.below(10) {
                     0 => GMsg::WrongKind,
                     1..=2 => GMsg::MissingNullable(v),
-                    3..=4 => GMsg::Sink(v, gen_sink_plan(&mut wr)),
+                    3..=4 => GMsg::Sink(v, gen_sink_plan(&mut wr, false)),
                     _ => GMsg::Good(v),
                 });
             }
@@ -622,7 +629,7 @@ impl Property for C18 {
             let id = *wr.pick(&corpus::IDS);
             let history = with_corpus!(id, T => (0..n).map(|_| {
                 let j = serde_json::to_value(T::gen(&mut wr)).unwrap();
-                if wr.chance(1, 4) { SMsg::Sink(j, gen_sink_plan(&mut wr)) } else { SMsg::Good(j) }
+                if wr.chance(1, 4) { SMsg::Sink(j, gen_sink_plan(&mut wr, true)) } else { SMsg::Good(j) }
             }).collect());
             Subject::Specific { type_id: id.into(), method: wr.below(3) as u8, history }
         };
